@@ -1,4 +1,6 @@
 import Iauthd.Proto.Names
+import Iauthd.Proto.History01
+import Iauthd.Properties.C09
 /-
   Property C01 — "One verdict per announced client, then silence" (model part).
 
@@ -14,6 +16,19 @@ import Iauthd.Proto.Names
   * `C01_verdict_removes`: a verdict (accept or kill) always removes the request it is about
     from the table, so every later line for that id is dropped by the dispatcher
     (`C01_unknown_id_inert`) until the id is announced again.
+
+  **The observable statement itself is `C01_history`**: for every history of input chunks (any
+  bytes, any chunking) and timer expiries, from the started daemon, the line-level trace of the
+  run — each complete input line with the lines written in response, each timer expiry with the
+  lines written in response — is accepted by the reader `Spec01` (Proto/Spec01.lean): every
+  client-directed line and every query names a live instance, an instance gets at most one
+  soft-done and one verdict, the queries of an instance carry one serial, and nothing names an
+  instance after its verdict.  `C01_trace_faithful` says that this trace is the run (`runOps`):
+  same final state, same bytes written per operation.  `C01_reload` carries the reader's records
+  across a configuration reload.  Hypotheses: an admissible configuration (bareword names, as for
+  C09) and that no announcement uses the id -1, which the protocol reserves for "no client"
+  (`-1 D` cannot withdraw such a request; the server never sends one).
+  The driver evaluates `Spec01` on every implementation trace next to the trace judge.
 -/
 namespace Iauthd.Properties
 open Iauthd Iauthd.Proto
@@ -77,5 +92,70 @@ theorem C01_timeout_names (s : State) (id : Int) (s' : State) (out : List Bytes)
 example (ops : List Op) := C01_invariant false false (by decide) ops
 example (ops : List Op) := C01_invariant true false (by decide) ops
 example (ops : List Op) := C01_invariant true true (by decide) ops
+
+
+/-! ### the observable statement, for every history -/
+
+theorem applyConfig_reqs (s : State) (live new : Config) (first : Bool) : (applyConfig s live new first).1.reqs = s.reqs := by
+  unfold applyConfig
+  dsimp only
+  split <;> split <;> simp [servicesChanged, classChanged]
+
+/-- **C01**: from the started daemon, every history of input chunks and timer expiries produces a
+    trace the reader accepts. -/
+theorem C01_history (hasXq hasClass : Bool) (lim : Limits) (hl : LimOK lim) (cfg : Config) (hc : ConfigOK cfg)
+    (ops : List Op) (s' : State) (trs : List (List Step1))
+    (hrun : runTrace (applyConfig (bootState hasXq hasClass lim) {} cfg true).1 ops = .ok (s', trs))
+    (hann : NoAnnM1 trs.flatten) :
+    (Spec01.run {} trs.flatten).ok = true := by
+  have h0 := (C09_start hasXq hasClass lim hl cfg hc [] Clean.nil).1
+  have hreqs : (applyConfig (bootState hasXq hasClass lim) {} cfg true).1.reqs = [] := by
+    rw [applyConfig_reqs]; rfl
+  have hsim : Sim (applyConfig (bootState hasXq hasClass lim) {} cfg true).1 {} := by
+    refine ⟨?_, ?_, rfl⟩
+    · intro id; rw [hreqs]; rfl
+    · intro id r i hr; rw [hreqs] at hr; cases hr
+  have hm : NoM1 (applyConfig (bootState hasXq hasClass lim) {} cfg true).1 := by
+    intro r hr; rw [hreqs] at hr; cases hr
+  exact (runTrace_sim ops _ {} h0 hsim hm s' trs hrun hann).2.1.ok
+
+/-- the same from any state whose table the reader's records match (e.g. after a reload) -/
+theorem C01_history_from (s : State) (t : Spec01.T1) (hs : StateOK s) (hsim : Sim s t) (hm : NoM1 s)
+    (ops : List Op) (s' : State) (trs : List (List Step1)) (hrun : runTrace s ops = .ok (s', trs))
+    (hann : NoAnnM1 trs.flatten) :
+    (Spec01.run t trs.flatten).ok = true ∧ StateOK s' ∧ Sim s' (Spec01.run t trs.flatten) ∧ NoM1 s' :=
+  let ⟨a, b', c⟩ := runTrace_sim ops s t hs hsim hm s' trs hrun hann
+  ⟨b'.ok, a, b', c⟩
+
+/-- the trace is the run: same final state, same bytes written by each operation -/
+theorem C01_trace_faithful (s : State) (ops : List Op) :
+    runOps s ops = (runTrace s ops).map fun r => (r.1, r.2.map outsOf) :=
+  runTrace_runOps ops s
+
+/-- a reload changes no request: the reader's records stay valid -/
+theorem C01_reload (s : State) (t : Spec01.T1) (hsim : Sim s t) (hm : NoM1 s) (live new : Config) :
+    Sim (applyConfig s live new false).1 t ∧ NoM1 (applyConfig s live new false).1 := by
+  have e := applyConfig_reqs s live new false
+  exact ⟨⟨by intro id; rw [e]; exact hsim.dom id, by intro id r i hr hi; rw [e] at hr; exact hsim.rel id r i hr hi, hsim.ok⟩,
+    by intro r hr; rw [e] at hr; exact hm r hr⟩
+
+/-! non-vacuity: the reader rejects what C01 forbids and accepts an ordinary conversation -/
+
+def exAnn : Bytes := b "5 C 1.2.3.4 1000 10.0.0.1 6667"
+def exD : Bytes := b "D 5 1.2.3.4 1000"
+def exd : Bytes := b "d 5 1.2.3.4 1000"
+def exX : Bytes := b "X login.srv 5_1 :LOGIN a b"
+
+example : (Spec01.run {} [(some exAnn, [exd, exX]), (some (b "5 H"), [exD])]).ok = true := by decide
+/-- a second verdict -/
+example : (Spec01.run {} [(some exAnn, [exD]), (none, [exD])]).ok = false := by decide
+/-- a second soft-done -/
+example : (Spec01.run {} [(some exAnn, [exd]), (some (b "5 H"), [exd])]).ok = false := by decide
+/-- a line after the verdict, in the same step -/
+example : (Spec01.run {} [(some exAnn, [exD, exX])]).ok = false := by decide
+/-- a verdict for an id nobody announced -/
+example : (Spec01.run {} [(some (b "5 H"), [exD])]).ok = false := by decide
+/-- the id is announced again: a new instance, a new verdict -/
+example : (Spec01.run {} [(some exAnn, [exD]), (some exAnn, [exD])]).ok = true := by decide
 
 end Iauthd.Properties
